@@ -101,7 +101,7 @@ class SymExec:
         self.depth = depth
         self.expand = expand
         self.bind_loops = bind_loops    # loop variables become ITER[_kN] instead of staying opaque
-        self._nloops = 0
+        self._nl = [0]          # loop-index counter, shared with the walks of looked-through helpers
         self.local_defs = {}            # nested `def` statements seen so far: name -> FunctionDef
         # module-level constants (NAME = literal / tuple of literals, assigned once) and the names the
         # function binds itself (which shadow them)
@@ -112,6 +112,14 @@ class SymExec:
 
     # ------------------------------------------------------------------ substitution
     raises = False      # True: a helper path that raises ends the caller's path as a raise too
+
+    @property
+    def _nloops(self):
+        return self._nl[0]
+
+    @_nloops.setter
+    def _nloops(self, v):
+        self._nl[0] = v
 
     def subst(self, e, env):
         def fn(n):
@@ -306,6 +314,7 @@ class SymExec:
         sub = SymExec(self.ctx, self.func, self.depth - 1, self.expand, self.bind_loops, self.no_expand,
                       self.max_paths, self.objects, self.effects, self.volatile, self.props, self.private_only)
         sub._ntok = self._ntok
+        sub._nl = self._nl
         sub.raises = self.raises
         sub.local_defs = dict(self.local_defs)
         res = []
@@ -351,6 +360,7 @@ class SymExec:
         sub = SymExec(self.ctx, g, self.depth - 1, self.expand, self.bind_loops, self.no_expand,
                       self.max_paths, self.objects, self.effects, self.volatile, self.props, self.private_only)
         sub._ntok = self._ntok
+        sub._nl = self._nl
         sub.raises = self.raises
         paths = sub.run(env=dict(bind))
         is_gen = any(isinstance(n, (ast.Yield, ast.YieldFrom)) for n in walk_no_nested(g.node))
@@ -401,6 +411,7 @@ class SymExec:
         sub = SymExec(self.ctx, g, self.depth - 1, self.expand, self.bind_loops, self.no_expand,
                       self.max_paths, self.objects, self.effects, self.volatile, self.props, self.private_only)
         sub._ntok = self._ntok
+        sub._nl = self._nl
         sub.raises = self.raises
         res = []
         for p in sub.run():
@@ -1576,7 +1587,12 @@ def _stdlib_algebra(n):
                                                              args=[x.value if isinstance(x, ast.Starred) else x, a.args[1]],
                                                              keywords=[]), ctx=ast.Load())
                                   for x in a.args[0].elts], ctx=ast.Load())
-        if _is_each(a) and not isinstance(a.args[0], (ast.List, ast.Tuple)):
+        def maybe_helper(e_):
+            # a call of an own method / module function may still be looked through (a generator helper
+            # becomes the literal sequence of what it yields): leave it for then
+            return isinstance(e_, ast.Call) and (isinstance(e_.func, ast.Name) or (
+                isinstance(e_.func, ast.Attribute) and isinstance(e_.func.value, ast.Name) and e_.func.value.id in ('self', 'cls')))
+        if _is_each(a) and not isinstance(a.args[0], (ast.List, ast.Tuple)) and not maybe_helper(a.args[0]):
             # every element of every E(x), x in IT: nested each = flattened iteration
             k = ast.Name(id='_k%d' % next(_FRESH_K), ctx=ast.Load())
             inner = ast.Call(func=ast.Name(id='_each', ctx=ast.Load()),
@@ -2149,6 +2165,11 @@ def row_values(e):
         return row_values(e.func.value)
     if isinstance(e, ast.BinOp) and isinstance(e.op, ast.Mod):
         return written_values(e.right)
+    if isinstance(e, ast.BinOp) and isinstance(e.op, ast.Add):
+        # literal text + formatted part (+ ...): the values of the formatted parts
+        l_, r_ = row_values(e.left), row_values(e.right)
+        if l_ is not None or r_ is not None:
+            return (l_ or []) + (r_ or [])
     if isinstance(e, ast.Call) and isinstance(e.func, ast.Attribute) and e.func.attr == 'join' and len(e.args) == 1:
         return written_values(e.args[0])
     if isinstance(e, ast.JoinedStr):
